@@ -24,7 +24,7 @@ func refAppend(s *strobe.Strobe, label string, msg []byte) {
 	s.AD(msg, false)
 }
 
-//verif:ob prop=C13 name=Merlin_history_vs_spec mode=bv tags=purego use=strobe.kf_keccak split=nl:0..2;nm:0..2+163..166;nd:0..1+32
+//verif:ob prop=C13,C18 name=Merlin_history_vs_spec mode=bv tags=purego use=strobe.kf_keccak split=nl:0..2;nm:0..2+163..166;nd:0..1+32 sharedro=1
 func vh_C13_merlin() {
 	nl, nm, nd := verif.Case("nl"), verif.Case("nm"), verif.Case("nd")
 	label := make([]byte, nl)
